@@ -140,6 +140,10 @@ class Engine:
         """Yield candidate smaller records (engine specific); default: nothing."""
         return iter(())
 
+    def stable_digest(self, res: "RunResult") -> str:
+        """Digest that must also agree under another PYTHONHASHSEED (default: the full digest)."""
+        return res.digest()
+
     def describe(self, rec: dict) -> str:
         return json.dumps(rec, ensure_ascii=True)[:400]
 
@@ -209,7 +213,7 @@ def _worker(args):
         if res.nontrivial:
             agg["nontrivial"].add(d[:16])
         if sample_every and (i % sample_every == 0):
-            agg["digests"][i] = d
+            agg["digests"][i] = [d, eng.stable_digest(res)]
         if len(agg["samples"]) < 2 and res.nontrivial:
             agg["samples"].append({"run_index": i, "record": rec})
         if res.violation is not None:
@@ -274,7 +278,7 @@ def fresh_exec(prop: str, rec: dict, hashseed: str, timeout: float = 600.0) -> d
 
 
 def fresh_digests(prop: str, seed: int, tier: str, indices: list[int], hashseed: str,
-                  timeout: float = 900.0) -> dict[int, str]:
+                  timeout: float = 900.0) -> dict[int, list]:
     p = subprocess.run([sys.executable, CHECK, prop, "--digests", ",".join(map(str, indices)),
                         "--tier", tier],
                        env={**_child_env(hashseed), "VERIF_SEED": str(seed)},
@@ -642,10 +646,11 @@ def determinism_selftest(engine: Engine, seed: int, tier: str, digests: dict[int
     mismatches = []
     for h in hs:
         got = fresh_digests(engine.prop, seed, tier, idx, h)
+        k = 0 if h == hashseed else 1   # full digest under the same hash seed, hash-order-stable digest otherwise
         for i in idx:
-            if got.get(i) != digests[i]:
-                mismatches.append({"run_index": i, "hashseed": h, "pool": digests[i][:16],
-                                   "fresh": (got.get(i) or "")[:16]})
+            if (got.get(i) or [None, None])[k] != digests[i][k]:
+                mismatches.append({"run_index": i, "hashseed": h, "pool": digests[i][k][:16],
+                                   "fresh": ((got.get(i) or ["", ""])[k] or "")[:16]})
     return {"compared": len(idx) * len(hs), "hashseeds": hs, "mismatches": mismatches}
 
 
@@ -654,7 +659,8 @@ def child_digests(engine: Engine, seed: int, tier: str, indices: list[int]) -> i
     out = {}
     for i in reversed(indices):  # a different order than the pool used, on purpose
         rec = engine.gen(run_rng(engine.prop, seed, i), i, tier)
-        out[i] = execute_guarded(engine, rec).digest()
+        res = execute_guarded(engine, rec)
+        out[i] = [res.digest(), engine.stable_digest(res)]
     print(json.dumps(out))
     return 0
 
